@@ -67,7 +67,7 @@ let cmp_set = function
 let dispatch fn args = match fn, args with
   | "EqualObjects", [g; o1; o2; pairs; observed; limit] ->
     let lim = z_of_hex limit in
-    let r = equalObjects0 (enoughFuel lim) lim (graph_of_string g) (obj_of_string o1) (obj_of_string o2) (zlist_of_string pairs) in
+    let r = equalObjects (enoughFuel lim) lim (graph_of_string g) (obj_of_string o1) (obj_of_string o2) (zlist_of_string pairs) in
     let m = cmp_set r in
     let obs = List.filter (fun x -> x <> "") (String.split_on_char ',' observed) in
     if obs <> [] && List.for_all (fun x -> List.mem x m) obs then "consistent"
